@@ -204,6 +204,10 @@ class State:
                 )
             elif len(parts) == 4 and parts[2] == "old" and f"{parts[0]}.{parts[1]}.old" in notify_vars:
                 notify_vars[var_name] = getattr(notify_vars[f"{parts[0]}.{parts[1]}.old"], parts[3], None)
+            elif Function.get(var_name):
+                # the dotted name of a function or service called in the expression (eg, state.get):
+                # bound to None it would hide the function
+                continue
             elif 1 <= var_name.count(".") <= 3:
                 # not notified so far (unchanged since the trigger started, or not watched): its value as of
                 # this event, so that a burst of events is not evaluated on later values
